@@ -247,7 +247,17 @@ copy_other = 1
 
 // StartCluster starts master, volume servers and optionally filer and s3, and
 // waits until they answer and every volume server is registered.
-func StartCluster(o ClusterOpts) (*Cluster, error) {
+func StartCluster(o ClusterOpts) (c *Cluster, err error) {
+	for attempt := 0; attempt < 3; attempt++ {
+		if c, err = startClusterOnce(o); err == nil {
+			return c, nil
+		}
+		time.Sleep(500 * time.Millisecond)
+	}
+	return nil, err
+}
+
+func startClusterOnce(o ClusterOpts) (*Cluster, error) {
 	if o.Volumes == 0 {
 		o.Volumes = 1
 	}
@@ -281,7 +291,7 @@ func StartCluster(o ClusterOpts) (*Cluster, error) {
 	}
 	if err = waitHTTP(c.MasterURL()+"/cluster/status", func(code int, b []byte) bool {
 		return code == 200 && bytes.Contains(b, []byte(`"IsLeader":true`))
-	}, 60*time.Second, c.Master); err != nil {
+	}, 120*time.Second, c.Master); err != nil {
 		return fail(err)
 	}
 	for i := 0; i < o.Volumes; i++ {
@@ -289,7 +299,7 @@ func StartCluster(o ClusterOpts) (*Cluster, error) {
 			return fail(err)
 		}
 	}
-	if err = c.WaitVolumeServers(o.Volumes, 60*time.Second); err != nil {
+	if err = c.WaitVolumeServers(o.Volumes, 120*time.Second); err != nil {
 		return fail(err)
 	}
 	if o.Filer || o.S3 {
@@ -327,7 +337,19 @@ func StartCluster(o ClusterOpts) (*Cluster, error) {
 }
 
 // AddVolumeServer starts volume server number i (its own dir, port, rack).
-func (c *Cluster) AddVolumeServer(i int) (*Proc, error) {
+func (c *Cluster) AddVolumeServer(i int) (p *Proc, err error) {
+	// ports are probed, not reserved: another cluster on this machine may grab
+	// one in between, so a failed start is retried on fresh ports
+	for attempt := 0; attempt < 4; attempt++ {
+		if p, err = c.addVolumeServerOnce(i); err == nil {
+			return p, nil
+		}
+		time.Sleep(300 * time.Millisecond)
+	}
+	return nil, err
+}
+
+func (c *Cluster) addVolumeServerOnce(i int) (*Proc, error) {
 	o := c.Opts
 	vp := FreePort()
 	vdir := filepath.Join(c.Dir, fmt.Sprintf("vol%d", i))
@@ -348,10 +370,12 @@ func (c *Cluster) AddVolumeServer(i int) (*Proc, error) {
 	if err != nil {
 		return nil, err
 	}
-	c.VolumeSrv = append(c.VolumeSrv, p)
-	if err = waitHTTP(fmt.Sprintf("http://127.0.0.1:%d/status", vp), func(code int, b []byte) bool { return code == 200 }, 60*time.Second, p); err != nil {
+	if err = waitHTTP(fmt.Sprintf("http://127.0.0.1:%d/status", vp), func(code int, b []byte) bool { return code == 200 }, 90*time.Second, p); err != nil {
+		p.Kill()
+		os.RemoveAll(vdir)
 		return nil, err
 	}
+	c.VolumeSrv = append(c.VolumeSrv, p)
 	return p, nil
 }
 
